@@ -310,6 +310,20 @@ pub fn run(cfg: &Cfg) -> Report {
             symbols.push(gen::random_branching(&mut rng0, &s, &[1]));
         }
     }
+    // 3D symbols with 6-8 chambers: sets from the library's D-set generator (instrument, validated by C06 and
+    // re-validated by the model here), random small branching
+    {
+        let sets: Vec<MSym> = observe(|| rust_dsymbols::generators::dset_generators::DSets::new(3, 8).map(|s| from_dset(&s)).collect::<Vec<_>>()).unwrap_or_default();
+        let big: Vec<&MSym> = sets.iter().filter(|s| s.n >= 6 && s.is_complete_set() && s.ops_are_involutions() && s.far_ops_commute() && s.is_connected()).collect();
+        for k in 0..cfg.tier.pick(6_000, 80_000) {
+            if big.is_empty() {
+                break;
+            }
+            let s = big[rng0.below(big.len())];
+            let _ = k;
+            symbols.push(gen::random_branching(&mut rng0, s, &[1, 1, 1, 2, 2, 3]));
+        }
+    }
     // random larger 2D symbols (7-12 chambers): structure, abelianisation, and the deeper clauses when small enough
     symbols.extend(gen::random_larger_2d_symbols(seed, cfg.tier.pick(2_000, 30_000), cfg.tier.pick(12, 20), &[1, 1, 1, 2, 2, 3, 4, 6]));
     let ctx = par_items(cfg, &symbols, |ctx, k, m| {
